@@ -74,7 +74,34 @@ def gen_cases(tier, seed):
 
 
 def rechunk(path, layer_key, elems, rng):
-    """rewrite the datasets of the matrix with a chosen HDF5 chunk layout"""
+    """
+    rewrite the datasets of the matrix with a chosen HDF5 chunk layout;
+    elems == 'oversize' gives resizable datasets whose chunk is longer than
+    the data (legal HDF5: chunk > shape needs maxshape=None)
+    """
+    if elems == 'oversize':
+        with h5py.File(path, 'a') as f:
+            obj = f[layer_key]
+            if isinstance(obj, h5py.Dataset):
+                data = obj[()]
+                attrs = dict(obj.attrs)
+                del f[layer_key]
+                ds = f.create_dataset(
+                    layer_key, data=data,
+                    maxshape=(None, None),
+                    chunks=(data.shape[0] + 3, data.shape[1] + 2))
+                for k, v in attrs.items():
+                    ds.attrs[k] = v
+            else:
+                for name in ('data', 'indices', 'indptr'):
+                    d = obj[name][()]
+                    attrs = dict(obj[name].attrs)
+                    del obj[name]
+                    ds = obj.create_dataset(name, data=d, maxshape=(None,),
+                                            chunks=(len(d) * 2 + 5,))
+                    for k, v in attrs.items():
+                        ds.attrs[k] = v
+        return
     with h5py.File(path, 'a') as f:
         obj = f[layer_key]
         if isinstance(obj, h5py.Dataset):
@@ -277,6 +304,8 @@ def run_patterns(spec, work, ctx):
         for enc in ('dense', 'csr', 'csc'):
             layer = None if rng.random() < 0.7 else 'lyr'
             layout = None if rng.random() < 0.5 else int(rng.integers(1, 4))
+            if rng.random() < 0.1:
+                layout = 'oversize'
             check_iterator(ctx, M, enc, layer, dtype, work, rng,
                            list(range(1, r + 2)),
                            max_gb=float(rng.choice([1e-9, 1.0])),
@@ -321,6 +350,8 @@ def run_random(spec, work, ctx):
             layer = None if rng.random() < 0.7 else 'some_layer'
             layout = None if rng.random() < 0.4 else int(
                 rng.choice([1, 2, 7, 64, 1000]))
+            if rng.random() < 0.12:
+                layout = 'oversize'
             chunks = sorted({1, int(rng.integers(1, n + 1)), n, n + 3})
             if n > 50:
                 chunks = [int(rng.integers(1, n + 1)), n + 3]
